@@ -30,6 +30,14 @@ on the values that can reach it from the selected functions):
 * reads of the world outside the translated functions (`sys.version_info`, `platform_tags()`, …) come from an
   explicit environment table `Env`; a key that is not in the table is `PyRtEnvMissing`.
 * an exception is the *name of its class*; `except C` catches the classes listed under `C` in `bases`.
+* `dict`s are association lists in insertion order with `==` on keys (the keys that occur are `str`); `dict.update` only
+  with a dict argument; `PyVal.eq` does not compare dicts.
+* functions of the library that are modelled elsewhere are reached through an `Oracle` (a function of the call's name
+  and arguments, so that theorems can quantify over it; the driver builds one from a table recorded on the real code).
+* recursion and `while` loops are bounded by fuel taken from the size of the arguments (`fuelOf`); running out is
+  `RecursionError`.  The equivalence theorems show that this never happens on the values of the model's types.
+* `hash_sym` keeps `hash(v)` symbolic as `("__hash__", v)`; `src.call` patches `hash` in the module under test alike.
+* `str.replace` with an empty pattern is outside the run-time.
 * compiled regular expressions resolved to regenerated data, full `str.lower`, sets: `PkgModel/PyRx.lean`.
 -/
 namespace PyRt
@@ -56,6 +64,8 @@ inductive PyVal
   | unbound
   /-- the singleton `NotImplemented` -/
   | notImpl
+  /-- x3: a `dict`, items in insertion order (keys pairwise distinct under `==`) -/
+  | dict (kvs : List (PyVal × PyVal))
   deriving Repr, Inhabited
 
 instance : Coe Bool PyVal := ⟨PyVal.bool⟩
@@ -81,6 +91,8 @@ def bases : PyExc → List PyExc
   | "InvalidLicenseExpression" => ["ValueError", "Exception"]
   | "IndexError" => ["LookupError", "Exception"]
   | "KeyError" => ["LookupError", "Exception"]
+  | "UnicodeEncodeError" => ["UnicodeError", "ValueError", "Exception"]
+  | "UnicodeDecodeError" => ["UnicodeError", "ValueError", "Exception"]
   | _ => ["Exception"]
 
 def catches (handler : PyExc) (e : PyExc) : Bool := e == handler || (bases e).contains handler
@@ -94,6 +106,7 @@ def truthy : PyVal → Bool
   | .str s => !s.isEmpty
   | .list l => !l.isEmpty
   | .tuple l => !l.isEmpty
+  | .dict kvs => !kvs.isEmpty
   | _ => true
 
 def not_ (v : PyVal) : PyVal := .bool (!truthy v)
@@ -544,11 +557,21 @@ def str_split_max (s sep n : PyVal) : M PyVal :=
   | .str _, _, _ => throw typeError
   | _, _, _ => throw attributeError
 
+/-- x3: `s.replace(old, new)` for a non-empty `old` -/
+def replaceStr (old new : Str) : Nat → Str → Str
+  | 0, s => s
+  | _ + 1, [] => []
+  | f + 1, c :: cs =>
+    if startsWith (c :: cs) old then new ++ replaceStr old new f ((c :: cs).drop old.length)
+    else c :: replaceStr old new f cs
+
 /-- `s.replace(old, new)` for a one-character `old` -/
 def str_replace (s o n : PyVal) : M PyVal :=
   match s, o, n with
   | .str s, .str [c], .str n => pure (.str (s.flatMap fun x => if x == c then n else [x]))
-  | .str _, .str _, .str _ => throw "PyRtUnsupported"
+  | .str s, .str o, .str n =>
+    -- x3: a pattern of several characters (left to right, non-overlapping); the empty pattern is not modelled
+    if o.isEmpty then throw "PyRtUnsupported" else pure (.str (replaceStr o n (s.length + 1) s))
   | .str _, _, _ => throw typeError
   | _, _, _ => throw attributeError
 
@@ -691,6 +714,7 @@ def className : PyVal → String
   | .list _ => "list" | .tuple _ => "tuple" | .iter _ => "iterator"
   | .negInf => "NegativeInfinityType" | .posInf => "InfinityType" | .unbound => "<unbound>"
   | .notImpl => "NotImplementedType"
+  | .dict _ => "dict"
 
 /-- `isinstance(v, (C1, C2, …))` by class name; `bool` is a subclass of `int` -/
 def isinstance (v : PyVal) (classes : List String) : Bool :=
@@ -756,6 +780,185 @@ def ofOptNat : Option Nat → PyVal
   | Option.none => .none
   | some n => .int n
 
+/-! ## x3: recursion fuel
+
+A translated function that calls itself (or a group that call each other) takes a fuel argument; the entry point
+starts it from the size of the arguments, which bounds the depth of any recursion that descends into a proper part of an
+argument or consumes input held in one.  Running out is `RecursionError`. -/
+
+mutual
+def size : PyVal → Nat
+  | .str s => 1 + s.length
+  | .list l => 1 + sizeL l
+  | .tuple l => 1 + sizeL l
+  | .iter l => 1 + sizeL l
+  | .obj _ fs => 1 + sizeF fs
+  | .dict kvs => 1 + sizeD kvs
+  | _ => 1
+def sizeL : List PyVal → Nat
+  | [] => 0
+  | v :: vs => size v + sizeL vs
+def sizeF : List (String × PyVal) → Nat
+  | [] => 0
+  | (_, v) :: fs => size v + sizeF fs
+def sizeD : List (PyVal × PyVal) → Nat
+  | [] => 0
+  | (k, v) :: r => size k + size v + sizeD r
+end
+
+def fuelOf (args : List PyVal) : Nat := 4 * sizeL args + 16
+
+/-! ## x3: item assignment, nested mutation -/
+
+/-- `l[i] = x` on a list that is not shared -/
+def setitem (l i x : PyVal) : M PyVal :=
+  match l with
+  | .list xs =>
+    (match asInt i with
+     | Option.none => throw typeError
+     | some k => match normIndex xs.length k with
+       | some j => pure (.list (xs.set j x))
+       | Option.none => throw indexError)
+  | _ => throw typeError
+
+/-! ## x3: dicts (insertion ordered association lists; keys compared with `==`) -/
+
+def dictLookup : List (PyVal × PyVal) → PyVal → Option PyVal
+  | [], _ => Option.none
+  | (k, v) :: r, key => if PyVal.eq k key then some v else dictLookup r key
+
+/-- `d[key] = v`: an existing key keeps its position -/
+def dictSet : List (PyVal × PyVal) → PyVal → PyVal → List (PyVal × PyVal)
+  | [], key, v => [(key, v)]
+  | (k, x) :: r, key, v => if PyVal.eq k key then (k, v) :: r else (k, x) :: dictSet r key v
+
+def dictErase : List (PyVal × PyVal) → PyVal → List (PyVal × PyVal)
+  | [], _ => []
+  | (k, x) :: r, key => if PyVal.eq k key then r else (k, x) :: dictErase r key
+
+/-- keys the code uses are `str` (hashable); anything unhashable is `TypeError` -/
+def hashable : PyVal → Bool
+  | .list _ => false
+  | .dict _ => false
+  | _ => true
+
+def dict_getitem (d key : PyVal) : M PyVal :=
+  match d with
+  | .dict kvs =>
+    if !hashable key then throw typeError else
+    (match dictLookup kvs key with | some v => pure v | Option.none => throw "KeyError")
+  | _ => throw typeError
+
+def dict_setitem (d key v : PyVal) : M PyVal :=
+  match d with
+  | .dict kvs => if !hashable key then throw typeError else pure (.dict (dictSet kvs key v))
+  | _ => throw typeError
+
+/-- `d.get(key, dflt)` -/
+def dict_get (d key dflt : PyVal) : M PyVal :=
+  match d with
+  | .dict kvs => if !hashable key then throw typeError else pure ((dictLookup kvs key).getD dflt)
+  | _ => throw attributeError
+
+/-- `d.update(other)` for a dict `other` -/
+def dict_update (d other : PyVal) : M PyVal :=
+  match d, other with
+  | .dict kvs, .dict o => pure (.dict (o.foldl (fun acc p => dictSet acc p.1 p.2) kvs))
+  | .dict _, _ => throw "PyRtUnsupported"
+  | _, _ => throw attributeError
+
+/-- `d.setdefault(key, dflt)`: (value, updated dict) -/
+def dict_setdefault (d key dflt : PyVal) : M (PyVal × PyVal) :=
+  match d with
+  | .dict kvs =>
+    if !hashable key then throw typeError else
+    (match dictLookup kvs key with
+     | some v => pure (v, d)
+     | Option.none => pure (dflt, .dict (kvs ++ [(key, dflt)])))
+  | _ => throw attributeError
+
+/-- `d.pop(key)`: (value, updated dict); `KeyError` when missing -/
+def dict_pop (d key : PyVal) : M (PyVal × PyVal) :=
+  match d with
+  | .dict kvs =>
+    if !hashable key then throw typeError else
+    (match dictLookup kvs key with
+     | some v => pure (v, .dict (dictErase kvs key))
+     | Option.none => throw "KeyError")
+  | _ => throw attributeError
+
+def dict_copy (d : PyVal) : M PyVal :=
+  match d with
+  | .dict kvs => pure (.dict kvs)
+  | _ => throw attributeError
+
+/-- `key in d` -/
+def dict_contains (d key : PyVal) : M Bool :=
+  match d with
+  | .dict kvs => if !hashable key then throw typeError else pure (dictLookup kvs key).isSome
+  | _ => throw typeError
+
+def dict_keys (d : PyVal) : M PyVal :=
+  match d with
+  | .dict kvs => pure (.iter (kvs.map (·.1)))
+  | _ => throw attributeError
+
+def dict_items (d : PyVal) : M PyVal :=
+  match d with
+  | .dict kvs => pure (.iter (kvs.map fun p => .tuple [p.1, p.2]))
+  | _ => throw attributeError
+
+/-! ## x3: oracles — functions of the library that the translated code calls but that are modelled elsewhere
+(`Specifier(...)`, `canonicalize_name`, …).  Unlike `Env` (a finite table) an oracle is a *function*, so that theorems can
+quantify over it; the driver builds one from a table sent by the harness (`oracleOf`).  A raised exception is the
+`error` of the result. -/
+
+abbrev Oracle := String → List PyVal → M PyVal
+
+def ext_call (ext : Oracle) (name : String) (args : List PyVal) : M PyVal := ext name args
+
+/-- table form: a list of `(name, args tuple, result)`; a result `("raise", "<Class>")`-object stands for an exception -/
+def oracleFind (name : Str) (args : List PyVal) : List PyVal → M PyVal
+  | [] => throw "PyRtOracleMissing"
+  | .tuple [.str n, a, r] :: rest =>
+    if n == name && PyVal.eq a (.tuple args) then
+      (match r with
+       | .obj "raise" [("cls", .str c)] => throw (toStringLossy c)
+       | v => pure v)
+    else oracleFind name args rest
+  | _ :: _ => throw "PyRtOracleMissing"
+
+def oracleOf (v : PyVal) : Oracle := fun name args =>
+  match v with
+  | .list l => oracleFind (ofString name) args l
+  | _ => throw "PyRtOracleMissing"
+
+/-! ## x3: callables taken from a module-level table of functions are represented by their key -/
+
+def fn_ref (table : String) (key : PyVal) : PyVal := .obj "function" [("table", .str (ofString table)), ("key", key)]
+
+def fn_key (table : String) (f : PyVal) : M PyVal :=
+  match f with
+  | .obj "function" [("table", .str t), ("key", k)] => if t == ofString table then pure k else throw "PyRtUnsupported"
+  | _ => throw typeError
+
+/-- `hash(v)` kept symbolic (an injective stand-in for the uninterpreted function), so that what is hashed stays visible;
+`src.call` patches `hash` in the module under test to build the same tuple -/
+def hash_sym (v : PyVal) : M PyVal := pure (.tuple [.str (ofString "__hash__"), v])
+
+/-! ## x3: `zip`, membership in a set display -/
+
+def zipVals : List PyVal → List PyVal → List PyVal
+  | a :: as, b :: bs => .tuple [a, b] :: zipVals as bs
+  | _, _ => []
+
+/-- `zip(a, b)` (materialised) -/
+def zip2 (a b : PyVal) : M PyVal := do
+  return .iter (zipVals (← iterate a) (← iterate b))
+
+/-- `x in {c1, c2, …}` for a set display of constants (given as a tuple): an unhashable `x` is `TypeError` -/
+def contains_set (a x : PyVal) : M Bool :=
+  if !hashable x then throw typeError else contains a x
 /-! ## x2: additions of the second round (more primitives live in `PkgModel/PyRx.lean`) -/
 
 /-- unary minus on ints / bools -/
